@@ -364,3 +364,32 @@ def callFn (name : String) (idx : Nat) (args : List Value) : Outcome :=
   else .illTyped
 
 end Octo.Num
+
+namespace Octo.Num
+/-! ### the code before the C13 repairs (for the refutation theorems and as documentation of the defects) -/
+
+/-- `"/"` as shipped: no zero test, Go's integer division panics on a zero divisor -/
+def fnDivRaw : Nat → List Value → Outcome
+  | 0, [.int a, .int b] => if b = 0 then .panic else .val (.int (quoI64 a b))
+  | 1, [.float _, .float _] => .opaque tFloat
+  | 2, [.dur a, .int b] => if b = 0 then .panic else .val (.dur (quoI64 a b))
+  | 3, [.dur _, .dur _] => .opaque tFloat
+  | _, _ => .illTyped
+
+/-- `"*"` as shipped: `strings.Repeat` unguarded -/
+def fnMulRaw : Nat → List Value → Outcome
+  | 4, [.str s, .int n] => repeatStringRaw s n
+  | 5, [.int n, .str s] => repeatStringRaw s n
+  | i, args => fnMul i args
+
+/-- `"[]"` as shipped -/
+def fnIndexRaw : Nat → List Value → Outcome
+  | 0, [.list xs, .int i] => indexFnRaw xs i
+  | _, _ => .illTyped
+
+def callFnRaw (name : String) (idx : Nat) (args : List Value) : Outcome :=
+  if name = "div" then fnDivRaw idx args
+  else if name = "mul" then fnMulRaw idx args
+  else if name = "idx" then fnIndexRaw idx args
+  else callFn name idx args
+end Octo.Num
